@@ -39,7 +39,8 @@ SCENARIOS = {
                    _man('proid.db', 2, 2, 2, lease='3s'),
                    _man('other.app', data_retention_timeout='0s'),
                    _man('proid.web', 1, 1, 1, schedule_once=True, identity_group='proid.g1'),
-                   _man('proid.db', 1, 1, 1, traits=['t1'], data_retention_timeout='5s')],
+                   _man('proid.db', 1, 1, 1, traits=['t1'], data_retention_timeout='5s'),
+                   _man('other.app', 1, 1, 1, lease='5d', data_retention_timeout='30d')],
         groups={'proid.g1': 2},
         apps=['a1', 'a2', 'a3', 'a4']),
 }
@@ -51,6 +52,7 @@ def gen_random(scn, rng, depth):
     up = {s for s, i in servers.items() if i}
     exists = {s for s, i in servers.items() if i}
     alive = True
+    days = 0
     for _ in range(depth):
         r = rng.random()
         free = [a for a in scn['apps'] if a not in apps]
@@ -110,12 +112,22 @@ def gen_random(scn, rng, depth):
         elif r < 0.84:
             g = rng.choice(sorted(scn['groups']))
             hist.append(('SetGroup', [g, rng.randrange(0, 4)]) if rng.random() < 0.8 else ('DelGroup', [g]))
+            if rng.random() < 0.3:
+                # fail-over right after the change, before any cycle saw it
+                hist.append(('Restart', []))
+                alive = True
         elif r < 0.88:
             hist.append(('SetAllocs', [rng.randrange(len(scn['allocsets'])) + 1]))
         elif r < 0.91:
             hist.append(('Blacklist', [rng.choice([[], ['proid.web'], ['proid.*'], ['other.app']])]))
         elif r < 0.96:
-            hist.append(('Tick', [rng.choice([1, 2, 3])]))
+            if days < 18 and rng.random() < 0.25:
+                d = rng.choice([1, 4, 8, 16])
+                d = min(d, 18 - days)
+                days += d
+                hist.append(('Tick', [d * 86400]))      # days: leases against reboot dates
+            else:
+                hist.append(('Tick', [rng.choice([1, 2, 3])]))
         else:
             hist.append(('Restart', []))
             alive = True
